@@ -998,6 +998,61 @@ def flag_identity_rule(chk, repo, clause, mods):
            else f'{n} use(s) of switches', '')
 
 
+def sequence_arithmetic_rule(chk, repo, clause, mods):
+    """A parameter documented as array_like may be a tuple or a list: it enters arithmetic item by item or after
+    `np.asarray`, never whole - `shape * pixelscale` raises for two tuples and *repeats* a list times an int.  Private helpers
+    inherit the kind of a parameter from the documented caller that hands it over under the same name."""
+    from ..effects import doc_param_kinds
+    from ..model import FuncInfo
+    arr_of = {}
+    funcs = [f for f in repo.all_functions() if f.module.name in mods]
+    for f in funcs:
+        kinds = doc_param_kinds(f)
+        arr_of[f.key] = {p_ for p_ in f.param_names() if kinds.get(p_) == 'array'}
+    for _ in range(2):
+        for f in funcs:
+            for node in ast.walk(f.node):
+                if not isinstance(node, ast.Call):
+                    continue
+                d = dotted(node.func)
+                tgt = repo.resolve_name(f.module, d) if d and d.split('.')[0] not in ('self', 'cls') else None
+                if not isinstance(tgt, FuncInfo) or tgt.key not in arr_of or (ast.get_docstring(tgt.node) or '').count(' : '):
+                    continue
+                names = tgt.param_names()
+                for i, a in enumerate(node.args):
+                    if isinstance(a, ast.Name) and a.id in arr_of[f.key] and i < len(names) and names[i] == a.id:
+                        arr_of[tgt.key].add(a.id)
+                for k in node.keywords:
+                    if k.arg and isinstance(k.value, ast.Name) and k.value.id in arr_of[f.key] and k.arg == k.value.id:
+                        arr_of[tgt.key].add(k.arg)
+    bad, n = [], 0
+    for f in funcs:
+        arr = arr_of.get(f.key) or set()
+        if not arr:
+            continue
+        rebound = {t.id for node in ast.walk(f.node) if isinstance(node, (ast.Assign, ast.AugAssign, ast.AnnAssign))
+                   for t in ast.walk(node.targets[0] if isinstance(node, ast.Assign) else node.target)
+                   if isinstance(t, ast.Name) and isinstance(t.ctx, ast.Store)}
+
+        def whole(e):
+            if isinstance(e, ast.Name) and e.id in arr - rebound:
+                return e.id
+            if isinstance(e, ast.Subscript) and isinstance(e.slice, ast.Slice) and isinstance(e.value, ast.Name) and e.value.id in arr - rebound:
+                return e.value.id
+            return None
+        n += len(arr)
+        for node in ast.walk(f.node):
+            if isinstance(node, ast.BinOp) and isinstance(node.op, (ast.Mult, ast.Add, ast.Sub, ast.Div, ast.FloorDiv, ast.Pow)):
+                l, r = whole(node.left), whole(node.right)
+                other_seq = (l and r) or (l and isinstance(node.right, (ast.Tuple, ast.List, ast.Constant))) or \
+                    (r and isinstance(node.left, (ast.Tuple, ast.List, ast.Constant)))
+                if other_seq and isinstance(node.op, (ast.Mult, ast.Add)) or (l and r):
+                    bad.append(f'{f.key}: `{f.module.segment(node)[:50]}` at {f.loc(node)}')
+    chk.ob(clause, 'T-sequence', 'lentil.' + '/'.join(mods), 'array_like parameters enter arithmetic item by item or through np.asarray, never as whole sequences',
+           (not bad) if n else None, ('; '.join(sorted(set(bad))[:2]) + ': tuples raise TypeError here, a list is repeated or concatenated') if bad
+           else f'{n} array_like parameter(s)', '')
+
+
 def array_truth_rule(chk, repo, clause, mods):
     """A parameter documented as array_like is never tested by its truth: `x if x else default`, `if not x`, `x or default`
     raise for an array of more than one element, and take the default for a legitimate 0 / [0, 0] / empty value.  (`is
@@ -1165,6 +1220,7 @@ def public_signature_rule(chk, repo, pid, mods):
     crossed_arguments_rule(chk, repo, clause, mods)
     flag_identity_rule(chk, repo, clause, mods)
     array_truth_rule(chk, repo, clause, mods)
+    sequence_arithmetic_rule(chk, repo, clause, mods)
     chk.ob(clause, 'B-signature', 'lentil.' + '/'.join(mods), 'pinned public calling conventions', (not bad) if n else None,
            '; '.join(bad[:3]) + (': calls written against the documented convention bind other parameters / get other values'
                                  if bad else f'{n} public function(s) keep their calling convention'), '')
